@@ -22,6 +22,19 @@ def M(id_, file, old, new, props):
 
 
 MUTANTS = [
+    M('prior-survival-of-u', PR, "dist.isf(1 - points[..., i])", "dist.isf(points[..., i])", 'C15'),
+    M('prior-neighbour-coordinate', PR, "dist.isf(1 - points[..., i])",
+      "dist.isf(1 - points[..., i - 1])", 'C15'),
+    M('uniform-scale-is-upper-bound', PR, "dist = uniform(loc=dist[0], scale=dist[1] - dist[0])",
+      "dist = uniform(loc=dist[0], scale=dist[1])", 'C15'),
+    M('fixed-value-added-to-ones', PR, "np.ones(phys_points[..., 0].shape) * dist",
+      "np.ones(phys_points[..., 0].shape) + dist", 'C15'),
+    M('resume-reads-blobs-where-absent', S, "                    if 'blobs_{}'.format(shell) in group:",
+      "                    if 'blobs_{}'.format(shell) not in group:", 'C05 C03'),
+    M('resume-reads-transfer-set-where-absent', S,
+      "                    if key in group:\n                        setattr(self, key, np.array(group[key]))",
+      "                    if key not in group:\n                        setattr(self, key, np.array(group[key]))",
+      'C05 C03'),
     M('transform-directions-swapped', B, "        if not inverse:\n            return np.einsum('ij, ...j', self.B_inv, points - self.c)",
       "        if inverse:\n            return np.einsum('ij, ...j', self.B_inv, points - self.c)", 'C08 C07'),
     M('volume-n-over-log-two', B, "self.n_dim * np.log(2.) +", "self.n_dim / np.log(2.) +", 'C08'),
@@ -1081,6 +1094,10 @@ BENIGN += [
     dict(id='reader-range-explicit-zero', file=U,
          old="            for i in range(len(bound.log_v_all))]",
          new="            for i in range(0, len(bound.log_v_all))]", props=ALL.split()),
+    dict(id='prior-ppf-form', file=PR, old="dist.isf(1 - points[..., i])",
+         new="dist.ppf(points[..., i])", props=ALL.split()),
+    dict(id='uniform-positional', file=PR, old="dist = uniform(loc=dist[0], scale=dist[1] - dist[0])",
+         new="dist = uniform(dist[0], dist[1] - dist[0])", props=ALL.split()),
     dict(id='with-statement', file=S, old="fstream = h5py.File(filepath_tmp, 'w')", new=None,
          fn=_with_statement, props=ALL.split()),
     dict(id='guard-clause-trim', file=U, old="            return False\n\n    def contains",
